@@ -78,6 +78,13 @@ def gen_spline(rng, S, tier, allow_per=True, nmax=None):
         xs = gen.axis_f(rng, n, rng.choice(["unit", "uniform", "random", "geometric", "evenish"]))
         flat = [rng.uniform(-4, 4) for _ in range(n * L)]
     bc, lanes = rand_bc(rng, S, L, trailing, allow_per)
+    if S == "F" and rng.random() < 0.15:
+        # the same axis in a very small / very large unit (interval lengths 2^-470 .. 2^470): squares of interval lengths are
+        # still finite, anything of third order is not.  Boundaries without derivative values (those have units of their own).
+        k = rng.choice([-1, 1]) * rng.randint(340, 470)
+        xs = [x * 2.0 ** k for x in xs]
+        c = rng.choice(["nak", "nat", "cla"] + (["per"] if allow_per else []))
+        bc, lanes = (c, "per") if c == "per" else (c, [(c, c)] * L)
     if bc == "per":
         flat[(n - 1) * L:] = flat[:L]
     return shape, xs, flat, bc, lanes
@@ -185,7 +192,8 @@ def extra(rng, tier):
                      e_array("Q", [len(qs)], [Fr(q) for q in qs]))
         lines += [fl, ql]
         hs = [b - a for a, b in zip(xs, xs[1:])]
-        metas.append((max(abs(v) for v in flat) + 10.0, max(hs) / min(hs), max(hs)))
+        unit = 2.0 ** (math.frexp(max(hs))[1] if not (-300 < math.frexp(max(hs))[1] < 300) else 0)   # axes in extreme units: compare in that unit
+        metas.append((max(abs(v) for v in flat) + 10.0, max(hs) / min(hs), max(hs) / unit))
     outs = vlib.run_impl_only(ID, lines, tag="f64")
     fails = []
     worst = 0.0
